@@ -403,13 +403,19 @@ def inline_helpers(tree, known_functions):
                 i += len(new)
         rec(fn.body)
 
-    for s in tree.body:
+    for s in list(tree.body):
         if isinstance(s, ast.FunctionDef):
             process(s, None)
         elif isinstance(s, ast.ClassDef):
             for m in s.body:
                 if isinstance(m, ast.FunctionDef):
                     process(m, s.name)
+    # module-level code (the table-building loops of the codec modules) may call a new module-level helper too
+    if any(k[0] == '' for k in helpers):
+        pseudo = ast.FunctionDef(name='<module>', args=ast.arguments(posonlyargs=[], args=[], vararg=None, kwonlyargs=[], kw_defaults=[],
+                                                                       kwarg=None, defaults=[]),
+                                 body=tree.body, decorator_list=[], returns=None, lineno=1, col_offset=0)
+        process(pseudo, None)
     return done
 
 
